@@ -53,7 +53,7 @@ func quoteZql(s string) string {
 	return b.String()
 }
 
-var c11Alphabet = []rune{'\\', '\\', '\\', '"', '"', 'n', 't', 'r', 'f', '\n', '\t', '\r', '\f', 'a', 'b', ' ', ' ', 'Z', '0', '%', '\'', '(', ']', ',', 'é', '☃'}
+var c11Alphabet = []rune{'\\', '\\', '\\', '"', '"', 'n', 't', 'r', 'f', '\n', '\t', '\r', '\f', 'a', 'b', ' ', ' ', 'Z', 'o', 'o', 'N', 'O', 'T', '0', '%', '\'', '(', ']', ',', 'é', '☃'}
 
 func genC11String(t *rapid.T, label string) string {
 	n := rapid.IntRange(0, 12).Draw(t, label+"_len")
